@@ -906,6 +906,20 @@ func Generate(r *rand.Rand, p Profile) *G {
 		st := g.genStmt()
 		g.Prog.Stmts = append(g.Prog.Stmts, st)
 	}
+	hasMetaOrigin := false
+	for _, v := range g.Prog.Vars {
+		hasMetaOrigin = hasMetaOrigin || v.Fn == "meta"
+	}
+	if hasMetaOrigin && g.chance(0.15) {
+		// a set_account_meta that writes what the store already holds (a store that answers a
+		// metadata request with more than was asked lets the interpreter know that)
+		acc := g.pick(g.Accts)
+		if g.In.Meta[acc] == nil {
+			g.In.Meta[acc] = map[string]string{}
+		}
+		g.In.Meta[acc]["zz_same"] = "unchanged"
+		g.Prog.Stmts = append(g.Prog.Stmts, Stmt{K: "call", Fn: "set_account_meta", Args: []Expr{*Acc(acc), *Str("zz_same"), *Str("unchanged")}})
+	}
 	if len(g.Prog.Vars) > 0 && len(g.Prog.Stmts) > 0 && g.chance(0.1) {
 		// the name of a declared variable inside a comment and inside a string literal: text, not a use
 		name := g.Prog.Vars[g.R.IntN(len(g.Prog.Vars))].Name
